@@ -99,11 +99,8 @@ Qed.
 
 Lemma cell_field_good c : field_good (csv_field c) (csv_shown c).
 Proof.
-  destruct c as [|s|n|txt]; cbn [csv_field csv_shown].
-  - now apply plain_field_good.
-  - apply quote_field_good.
-  - apply quote_field_good.
-  - apply quote_field_good.
+  destruct c as [|s|n|txt|b|txt]; cbn [csv_field csv_shown]; try apply quote_field_good.
+  now apply plain_field_good.
 Qed.
 
 Lemma fields_parse (es : list (list Z * list Z)) :
@@ -198,6 +195,20 @@ Proof.
   unfold csv_parse, csv_doc, csv_displayed.
   rewrite header_record by assumption. now rewrite rows_records by assumption.
 Qed.
+
+(* a cell of any type, given by ANY display text (commas, quotes, CR, LF included), reads back as
+   exactly that text *)
+Corollary csv_other_roundtrip h txt :
+  csv_parse (csv_doc (mkTable [h] [[COther txt]])) = Some [[h]; [txt]].
+Proof. apply (csv_roundtrip (mkTable [h] [[COther txt]])). reflexivity. Qed.
+
+(* why the quoting scan must also run for non-string columns: the list cell [1, 2] written bare
+   reads back as the two fields "[1" and " 2]" *)
+Lemma other_unquoted_refuted :
+  cell_text (COther [91; 49; 44; 32; 50; 93]) = [91; 49; 44; 32; 50; 93] /\
+  csv_parse ([104; 10] ++ [91; 49; 44; 32; 50; 93] ++ [10]) = Some [[[104]]; [[91; 49]; [32; 50; 93]]] /\
+  csv_doc (mkTable [[104]] [[COther [91; 49; 44; 32; 50; 93]]]) = [104; 10; 34; 91; 49; 44; 32; 50; 93; 34; 10].
+Proof. vm_compute. repeat split. Qed.
 
 (* the executable spec accepts the model's output under the same guard *)
 Lemma bytes_eqb_refl a : bytes_eqb a a = true.
@@ -401,7 +412,8 @@ Proof. vm_compute. repeat split. Qed.
 Definition ex_table : table :=
   mkTable [[105; 100]; [110; 44; 34; 13]]
           [[CInt (-7); CStr [97; 44; 34; 98; 10; 99]]; [CNull; CStr [195; 169; 32; 13]]; [CInt 0; CStr [13; 10; 9; 0; 31]];
-           [CInt 1; CFloat [45; 105; 110; 102]]; [CInt 2; CFloat [49; 46; 53]]].
+           [CInt 1; CFloat [45; 105; 110; 102]]; [CInt 2; CFloat [49; 46; 53]];
+           [CInt 3; COther [91; 49; 44; 32; 50; 93]]; [CInt 4; COther [123; 98; 58; 32; 34; 44; 13; 10; 125]]; [CInt 5; CBool true]].
 Example ex_guards : table_wf ex_table = true /\ table_typed ex_table = true /\
   csv_spec_ok ex_table (csv_doc ex_table) = true /\ json_spec_ok ex_table (json_doc ex_table) = true.
 Proof. vm_compute. repeat split. Qed.
@@ -585,6 +597,8 @@ Definition value_ok (c : cell) : bool :=
   | CStr s => nonneg s
   | CInt n => json_number_ok (int_dec n)
   | CFloat txt => float_nonfinite txt || json_number_ok txt
+  | CBool _ => true
+  | COther txt => nonneg txt
   end.
 
 Lemma number_value txt d rest : json_number_ok txt = true -> d = 44 \/ d = 125 ->
@@ -610,12 +624,15 @@ Lemma value_parse c d rest : value_ok c = true -> d = 44 \/ d = 125 ->
   j_value (json_value c ++ d :: rest) = Some (jval_of c, d :: rest) /\
   skip_ws (json_value c ++ d :: rest) = json_value c ++ d :: rest.
 Proof.
-  destruct c as [|s|n|txt]; cbn [value_ok json_value jval_of]; intros H Hd.
+  destruct c as [|s|n|txt|b|txt]; cbn [value_ok json_value jval_of]; intros H Hd.
   - split; reflexivity.
   - unfold json_string. cbn [app]. rewrite <- app_assoc. cbn [app]. split; [|reflexivity].
     cbn [j_value]. cbn [Z.eqb Pos.eqb]. now rewrite lex_escape.
   - now apply number_value.
   - destruct (float_nonfinite txt); [split; reflexivity|]. cbn [orb] in H. now apply number_value.
+  - destruct b; split; reflexivity.
+  - unfold json_string. cbn [app]. rewrite <- app_assoc. cbn [app]. split; [|reflexivity].
+    cbn [j_value]. cbn [Z.eqb Pos.eqb]. now rewrite lex_escape.
 Qed.
 
 Lemma sk32 l : skip_ws (32 :: l) = skip_ws l. Proof. reflexivity. Qed.
@@ -788,11 +805,13 @@ Proof.
     + apply in_combine_r in Hin.
       rewrite forallb_forall in Hcells. specialize (Hcells r Hr).
       rewrite forallb_forall in Hcells. specialize (Hcells c Hin).
-      destruct c as [|s|n|txt]; cbn [value_ok cell_typed] in *.
+      destruct c as [|s|n|txt|b|txt]; cbn [value_ok cell_typed] in *.
       * reflexivity.
       * now apply bytes_ok_nonneg.
       * now apply int_dec_number_ok.
       * exact Hcells.
+      * reflexivity.
+      * now apply bytes_ok_nonneg.
   - rewrite forallb_forall in Hlen. specialize (Hlen r Hr). apply Nat.eqb_eq in Hlen.
     destruct (t_cols t) as [|h cols]; [discriminate|]. destruct r as [|c r]; [discriminate|]. reflexivity.
 Qed.
